@@ -168,7 +168,7 @@ func c11(r *core.Run) {
 		r.Check("C11.Lk1", lsKey("C11.Lk1", kk.fn, kk.what), in.Pos(), !isBad,
 			"the index write "+kk.what+" happens with DB.batchMu held", detail)
 	}
-	r.Floor("C11.Lk1", "index/field writes in localstore", n, 30)
+	r.Floor("C11.Lk1", "index/field writes in localstore", n, 15)
 	r.Eval(n)
 	for _, f := range []string{"gcRunning", "dirtyAddresses"} {
 		m := la.CheckGuarded(r, "C11.Lk1", dbT, f, dbT+".batchMu", exempt)
@@ -633,7 +633,7 @@ func c14(r *core.Run) {
 	if ndirect == 0 {
 		r.Check("C14.B1", core.Key("C14.B1", roots[0], "no direct write in batched operations"), roots[0].Pos(), true, "batched operations stage every index write in their batch", "")
 	}
-	r.Floor("C14.B2", "staged (*InBatch) writes in batched operations", nstaged, 25)
+	r.Floor("C14.B2", "staged (*InBatch) writes in batched operations", nstaged, 12)
 	// one NewBatch and at most one Commit per operation
 	for _, fn := range roots {
 		nb, nc := 0, 0
